@@ -55,12 +55,14 @@ class RunCtx:
         self.net = Net(self.env)
         self.net.install()
         self.world = World(self.env, self.net)
+        RunCtx.current = self
         self.jail = os.path.join(self.root, "jail")
         self.probes = {}
         self.signature = hashlib.sha256()
         self.state_hashes = set()
         self.nontrivial = False
         self._install_knobs(program.get("knobs") or {})
+        self._install_reach_probes()
         self._install_buggify(program.get("buggify") or {})
 
     def probe(self, name, n=1):
@@ -68,6 +70,55 @@ class RunCtx:
 
     def sig(self, *parts):
         self.signature.update(repr(parts).encode())
+
+    def _install_reach_probes(self):
+        """White-box *counters* only (never oracles): did the rare paths run?"""
+        import asimap.client as client
+        import asimap.db as db
+        import asimap.mbox as mbox
+
+        ctx = self
+        if getattr(mbox.Mailbox, "_sim_probed", False):
+            return
+        mbox.Mailbox._sim_probed = True
+        orig_pack = mbox.Mailbox._pack_if_necessary
+
+        async def pack(self_):
+            r = await orig_pack(self_)
+            if r:
+                RunCtx.current.probe("pack_ran")
+            return r
+
+        mbox.Mailbox._pack_if_necessary = pack
+        orig_disp = mbox.Mailbox._dispatch_or_pend_notifications
+
+        async def disp(self_, notifications, dont_notify=None):
+            if notifications and any(not c.idling and c is not dont_notify for c in self_.clients.values()):
+                n = notifications if isinstance(notifications, list) else [notifications]
+                if any("EXPUNGE" in str(x) for x in n):
+                    RunCtx.current.probe("expunge_pended_to_session")
+                else:
+                    RunCtx.current.probe("fetch_pended_to_session")
+            return await orig_disp(self_, notifications, dont_notify=dont_notify)
+
+        mbox.Mailbox._dispatch_or_pend_notifications = disp
+        orig_ccp = mbox.Mailbox.command_can_proceed
+
+        async def ccp(self_, imap_cmd):
+            if self_.would_conflict(imap_cmd):
+                RunCtx.current.probe("command_waited_for_conflict")
+            return await orig_ccp(self_, imap_cmd)
+
+        mbox.Mailbox.command_can_proceed = ccp
+        orig_policy = db.Database._execute_retry_policy
+
+        def policy(self_, info):
+            r = orig_policy(self_, info)
+            if r[0] is False:
+                RunCtx.current.probe("retry_policy_absorbed_error")
+            return r
+
+        db.Database._execute_retry_policy = policy
 
     def _install_knobs(self, knobs):
         import asimap.mbox as mbox
